@@ -41,6 +41,12 @@ def split(c):
     return pos, neg
 
 
+def has_own_match(ogp, q, marker):
+    """the function body itself contains a match / if-let on a variant of the enum (not merely inherited conditions)"""
+    import json
+    return marker.strip(':') in json.dumps(ogp.crate.fns[q]['body'])
+
+
 def holds_block(ty, sch, depth=0):
     if 'Block' in ty.replace('BlockContext', ''):
         return True
@@ -98,19 +104,39 @@ def run(rep, sub=False):
     blocks, funcs, efuncs, eglob = required_pairs(sch)
     # ---- anchors by role ---------------------------------------------------------------------------------------------
     BW, FW = set(), set()
+    ogp.crate.call_graph()
+    recursive = {q for q in ogp.crate.fns if ogp.crate.same_recursive_component(q, q) or len(ogp.crate.scc.get(q, ())) > 1}
     for q, effs in ogp.effects.items():
         for e in effs:
+            if e['in'] not in recursive:
+                continue   # a non-recursive helper inherits the conditions of its caller; the match itself lives in the walker
             pos, neg = split(e['cond'])
             for c in pos + neg:
                 if c[0] == 'is' and '::Statement::' in c[2]:
                     BW.add(e['in'])
                 if c[0] == 'is' and '::Expression::' in c[2]:
                     FW.add(e['in'])
+    # a forwarding helper is a walker only if it does the match itself
+    BW = {q for q in BW if has_own_match(ogp, q, '::Statement::')}
+    FW = {q for q in FW if has_own_match(ogp, q, '::Expression::')}
+    # helpers of the recursive component that only forward a function handle to the function walker (e.g. `visit callee if not visited yet`)
+    forwarders = {}
+    for q in recursive - BW - FW:
+        fi = ogp.crate.fns[q]
+        hidx = [i for i, p in enumerate(fi['params']) if p['ty'].replace(' ', '').lstrip('&').startswith(('Handle<', 'naga::Handle<'))]
+        if not hidx:
+            continue
+        Hh = ('param', q, fi['params'][hidx[0]]['pat']['name'])
+        for e in ogp.effects.get(q, []):
+            if e['in'] == q and e['kind'] == 'reccall' and e['callee'] in FW and any(a[0] == 'idx' and a[2] == Hh for a in e['args'] if isinstance(a, tuple)):
+                pos, neg = split(e['cond'])
+                if all(c[0] == 't' and c[1][0] == 'mcall' and c[1][2] == 'insert' and c[1][3] == [Hh] for c in pos) and not neg:
+                    forwarders[q] = hidx[0]
     rep.floor('function matching on naga::Statement (block walker)', len(BW), 1)
     rep.floor('function matching on naga::Expression (function walker)', len(FW), 1)
     if not BW or not FW:
         return
-    walkers = BW | FW
+    walkers = BW | FW | set(forwarders)
     crate = ogp.crate
     is_stage = lambda t: 'ShaderStages' in t and 'Map' not in t
     is_map = lambda t: 'Map<' in t and 'ShaderStages' in t
@@ -120,12 +146,14 @@ def run(rep, sub=False):
     seen = set()
     for q in sorted(walkers):
         for e in ogp.effects.get(q, []):
-            if e['in'] != q:
-                continue  # code of an inlined callee: judged in that function's own summary, where its parameters are symbolic
+            if e['in'] != q and e['in'] in recursive:
+                continue  # code of another walker: judged in that function's own summary, where its parameters are symbolic
             k = (e['in'], e['line'], e['kind'], e.get('callee'), e.get('method'))
             if k in seen:
                 continue
             seen.add(k)
+            e = dict(e)
+            e['_root'] = q
             effs.append(e)
     rep.analysed = {'block_walkers': sorted(BW), 'function_walkers': sorted(FW), 'effects': len(effs),
                     'required_statement_block_fields': [f'{v}.{f}' for v, f, _ in blocks], 'required_function_handles': [f'Statement::{v}.{f}' for v, f in funcs] +
@@ -150,14 +178,17 @@ def run(rep, sub=False):
         variant = f'naga::{enum}::{v}'
         hits = []
         for e in effs:
-            if e['kind'] != 'reccall' or e['callee'] not in callee_set:
+            if e['kind'] != 'reccall' or (e['callee'] not in callee_set and not (kind == 'fn' and e['callee'] in forwarders)):
                 continue
             pos, neg = split(e['cond'])
             scr = [c for c in pos if c[0] == 'is' and c[2].endswith(f'{enum}::{v}')]
             if not scr:
                 continue
             target = ('vf', scr[0][1], scr[0][2], f)
-            if any(derived_from(a, target) for a in e['args']):
+            if e['callee'] in forwarders and kind == 'fn':
+                if e['args'][forwarders[e['callee']]] == target:
+                    hits.append((e, scr[0], pos, target))
+            elif any(derived_from(a, target) for a in e['args']):
                 hits.append((e, scr[0], pos, target))
         key = f'{enum}::{v}.{f}'
         if not hits:
@@ -221,7 +252,7 @@ def run(rep, sub=False):
             continue
         e, scr, pos = hit
         target = ('vf', scr[1], scr[2], f)
-        q = e['in']
+        q = e['_root']     # parameters are those of the walker in whose summary the (possibly inlined helper's) update was recorded
         fi = crate.fns[q]
         sidx = param_index(fi, is_stage)
         midx = param_index(fi, is_map)
